@@ -73,6 +73,63 @@ theorem aka_spec (existing us : List String) :
   ⟨orderedUnion_mem existing us, ⟨_, rfl⟩, orderedDiff_mem existing us, orderedDiff_sublist existing us,
    orderedUnion_nodup existing us⟩
 
+/-- … on the list as it stands in the document (D50): entries that are no strings — a validated
+    ietf-json-patch can put them there — are kept where they are; the union appends the new URIs,
+    the difference takes out exactly the string entries named -/
+theorem aka_raw_spec (raw : List Json) (us : List String) :
+    (∃ tail, akaUnion raw us = raw ++ tail) ∧
+    (∀ e, e ∈ akaUnion raw us ↔ e ∈ raw ∨ ∃ u ∈ us, e = .str u) ∧
+    (akaDiff raw us).Sublist raw ∧
+    (∀ e, e ∈ akaDiff raw us ↔ e ∈ raw ∧ ∀ s, e = .str s → s ∉ us) := by
+  refine ⟨⟨_, rfl⟩, ?_, List.filter_sublist, ?_⟩
+  · intro e
+    simp only [akaUnion, List.mem_append, List.mem_map, List.mem_filter, Bool.not_eq_eq_eq_not, Bool.not_true,
+      List.contains_eq_mem, decide_eq_false_iff_not, List.mem_filterMap]
+    constructor
+    · rintro (h | ⟨u, ⟨hu, _⟩, rfl⟩)
+      · exact Or.inl h
+      · exact Or.inr ⟨u, hu, rfl⟩
+    · rintro (h | ⟨u, hu, rfl⟩)
+      · exact Or.inl h
+      · by_cases hin : Json.str u ∈ raw
+        · exact Or.inl hin
+        · refine Or.inr ⟨u, ⟨hu, ?_⟩, rfl⟩
+          rintro ⟨a, ha, hs⟩
+          cases a <;> simp [Json.str?] at hs
+          subst hs
+          exact hin ha
+  · intro e
+    simp only [akaDiff, List.mem_filter]
+    constructor
+    · rintro ⟨hm, hk⟩
+      refine ⟨hm, ?_⟩
+      rintro s rfl
+      simpa [Json.str?] using hk
+    · rintro ⟨hm, hk⟩
+      refine ⟨hm, ?_⟩
+      cases e <;> simp [Json.str?]
+      rename_i s
+      exact hk s rfl
+
+/-- on a list of strings the two are the ordered set union and difference of `aka_spec` -/
+theorem aka_raw_strs (existing us : List String) :
+    akaUnion (existing.map .str) us = (orderedUnion existing us).map .str ∧
+    akaDiff (existing.map .str) us = (orderedDiff existing us).map .str := by
+  have hs : (existing.map Json.str).filterMap Json.str? = existing := by
+    have hc : (Json.str? ∘ Json.str) = some := by funext s; rfl
+    simp [List.filterMap_map, hc]
+  constructor
+  · simp [akaUnion, orderedUnion, hs]
+  · simp only [akaDiff, orderedDiff, List.filter_map]
+    congr 1
+
+/-- the example of the report: `["x", 5, {"a":1}]` ∪ `["y"]` and ∖ `["nothing"]` -/
+example : akaUnion [.str "x", Json.mkNat 5, .obj [("a", Json.mkNat 1)]] ["y"] =
+      [.str "x", Json.mkNat 5, .obj [("a", Json.mkNat 1)], .str "y"] ∧
+    akaDiff [.str "x", Json.mkNat 5, .obj [("a", Json.mkNat 1)]] ["nothing"] =
+      [.str "x", Json.mkNat 5, .obj [("a", Json.mkNat 1)]] := by
+  simp [akaUnion, akaDiff, Json.str?, Json.mkNat]
+
 /-- replace discards the whole document and installs exactly the given keys and services -/
 theorem replace_spec (doc : Json) (kvs : List (String × Json)) (p : Json)
     (ha : getAction p = some "replace") (hv : getValue p = some (.obj kvs)) :
